@@ -10,8 +10,8 @@ def run(tier, replay):
     if replay:
         events = json.load(open(replay))["replay"]["events"]
     else:
-        nr = 16 if tier == "quick" else 64
-        jobs = [["keys", T, n, (n + hm) % 5, hm, nr] for hm in (0, 1, 2) for (T, n) in (((1, 0), (2, 40), (4, 70)) if tier == "quick" else ((1, 0), (2, 40), (4, 70), (3, 100)))]
+        nr = 16 if tier == "quick" else 400
+        jobs = [["keys", T, n, (n + hm) % 5, hm, nr] for hm in (0, 1, 2) for (T, n) in (((1, 0), (2, 40), (4, 70)) if tier == "quick" else ((1, 0), (2, 40), (4, 70), (3, 100), (16, 33), (2, 16), (1, 150)))]
         jobs += [["keys", 2, 40, 1, hm, nr, "zk"] for hm in (0, 1, 2)] + [["keys", 1, 20, 3, 0, nr, "zk"]]
         events = fl.collect(res, PID, jobs)
     st, nfull = fl.judge(res, PID, events, full_sample=40 if tier == "quick" else 400)
